@@ -152,7 +152,9 @@ def model_specs(draw, forced_one_in=30):
     if rest and draw(st.integers(0, 2)) > 0:  # by-product that has to leave the cell
         out_pool = [m for m in rest if m in exportable]
         bio[draw(st.sampled_from(out_pool if out_pool and draw(st.integers(0, 3)) > 0 else rest))] = draw(st.sampled_from([1, 1, 2]))
-    rxns.append(_rxn("BIOMASS", bio, 0, draw(st.sampled_from([100, 1000, 1000, 10]))))
+    # one spec in six forces a minimal objective flux (maintenance-like): requested values below it are still "achievable"
+    # (since seeded change C18-6); if the network cannot deliver it the model is infeasible and the verdict says so
+    rxns.append(_rxn("BIOMASS", bio, draw(st.sampled_from([0, 0, 0, 0, 0, 0.5, 2])), draw(st.sampled_from([100, 1000, 1000, 10]))))
 
     if n_ex >= 2:
         n_conv = draw(st.integers(0, 3))
@@ -801,13 +803,20 @@ def _record_solver_points(points):
         return lambda: None
 
     def wrapper(exchanges, *a, **k):
+        med = orig(exchanges, *a, **k)
         try:
             ex = list(exchanges)
             if ex and ex[0].model is not None:
-                points.append({r.id: float(r.flux) for r in ex[0].model.reactions})
+                mdl = ex[0].model
+                pt = {r.id: float(r.flux) for r in mdl.reactions}
+                # the on/off variables of the component-count formulation, if this is that formulation
+                ind = {r.id: float(mdl.variables["ind_" + r.id].primal) for r in ex if "ind_" + r.id in mdl.variables}
+                pt["__ind__"] = ind
+                pt["__medium__"] = {str(kk): float(vv) for kk, vv in med.items()}
+                points.append(pt)
         except Exception:  # noqa: BLE001 - observation only
             pass
-        return orig(exchanges, *a, **k)
+        return med
 
     mm._as_medium = wrapper
 
@@ -819,7 +828,7 @@ def _record_solver_points(points):
 
 def _point_infeasible(spec, bounds, pt, value):
     """None if the float point satisfies steady state, the bounds and objective >= value within 1e-6 (scaled), else what fails."""
-    scale = max([1.0] + [abs(v) for v in pt.values()])
+    scale = max([1.0] + [abs(v) for k, v in pt.items() if not k.startswith("__")])
     for r in spec["rxns"]:
         v = pt.get(r["id"])
         if v is None:
@@ -834,6 +843,14 @@ def _point_infeasible(spec, bounds, pt, value):
     obj = sum(float(c) * pt[rid] for rid, c in spec["objective"].items())
     if obj < value - 1e-6 * max(1.0, abs(value)):
         return f"objective {obj!r} below the required {value!r}"
+    # component-count formulation: an import well above the documented detection limit (integrality tolerance x largest
+    # bound = 1e-7 x bound; ten times that is used here) whose on/off variable is off violates the linking constraint
+    ind, med = pt.get("__ind__") or {}, pt.get("__medium__") or {}
+    if ind:
+        big_m = max([1.0] + [abs(float(b)) for rid in ind for b in bounds[rid]])
+        for rid, y in ind.items():
+            if y < 0.5 and med.get(rid, 0.0) > 1e-6 * big_m:
+                return f"import {rid} = {med[rid]!r} with its on/off variable at {y!r} (linking constraint violated)"
     return None
 
 
